@@ -256,9 +256,6 @@ class CGraph:
         print(cg.gradient([1.,2.]))
         """
 
-        if self.dependentFunctionList[0].ndim != 0:
-            raise Exception('you are trying to compute the gradient of a non-scalar valued function')
-
         if isinstance(x, list):
             if isinstance(x[0], numpy.ndarray) or isinstance(x[0], list):
                 x_list = x
@@ -279,6 +276,11 @@ class CGraph:
             utpm_x_list.append(algopy.UTPM(element))
 
         self.pushforward(utpm_x_list)
+
+        # (checked on the value at x, not on what the previous evaluation left in the node;
+        # one-element results, e.g. of a scalar program evaluated at [x], are accepted as before)
+        if self.dependentFunctionList[0].x.size != 1:
+            raise Exception('you are trying to compute the gradient of a non-scalar valued function')
 
         ybar =  self.dependentFunctionList[0].x.zeros_like()
         ybar.data[0,:] = 1.
